@@ -471,6 +471,24 @@ Proof.
     injection H as <-. simpl. f_equal. apply IH. reflexivity.
 Qed.
 
+(* the D32 work-list: members_deep keeps exactly the pointers of a type, in order *)
+Lemma members_deep_union us : members_deep (TUnion us) = flat_map members_deep us.
+Proof. simpl. induction us as [|x r IH]; simpl; [reflexivity | now rewrite IH]. Qed.
+Lemma members_deep_tptrs t : tptrs (members_deep t) = ptrs_of t.
+Proof.
+  induction t as [| | | | | | p | o ls | t IH | t IH | t IH | ts IH | fs IH | i] using ty_ind2;
+    try (simpl; rewrite ?app_nil_r; reflexivity).
+  - simpl. exact IH.
+  - rewrite members_deep_union, ptrs_of_union. unfold tptrs.
+    induction IH as [|x r Hx Hr IH]; simpl; [reflexivity |].
+    rewrite flat_map_app. fold (tptrs (members_deep x)). rewrite Hx. f_equal. exact IH.
+Qed.
+Lemma members_deep_flat_tptrs ts : tptrs (flat_map members_deep ts) = tptrs ts.
+Proof.
+  induction ts as [|x r IH]; simpl; [reflexivity |].
+  rewrite tptrs_app, members_deep_tptrs, IH. reflexivity.
+Qed.
+
 Section OptLemmas.
   Variable registry : list pseudo.
   Variable replaces : list (pseudo * pseudo).
@@ -509,8 +527,10 @@ Section OptLemmas.
 
   Theorem regroup_ptrs ts : incl (tptrs (regroup registry replaces peq ts)) (tptrs ts).
   Proof.
-    unfold regroup. pose proof (fold_split_step_ptrs ts ([], [], [], [], [])) as H.
-    destruct (fold_left (split_step registry) ts ([], [], [], [], [])) as [[[[strs objs] lists] dicts] other].
+    unfold regroup. pose proof (fold_split_step_ptrs (flat_map members_deep ts) ([], [], [], [], [])) as H.
+    rewrite members_deep_flat_tptrs in H.
+    destruct (fold_left (split_step registry) (flat_map members_deep ts) ([], [], [], [], []))
+      as [[[[strs objs] lists] dicts] other].
     assert (H' : forall i, In i (cats_ptrs (strs, objs, lists, dicts, other)) -> In i (tptrs ts)).
     { intros i Hi. destruct (H i Hi) as [[] | Hi']. exact Hi'. }
     clear H. unfold cats_ptrs in H'.
